@@ -485,6 +485,28 @@ class Gen:
             dv = I(r.choice([1, 2, 3, -2, 7])) if r.random() < 0.9 else self.expr("int", d - 1, env)
             return A(op, self.expr("int", d - 1, env), dv)
         if k < 0.55:
+            if r.random() < 0.4:
+                # an operand pending below an `if` whose branches differ in shape (bare variable / constant
+                # on one side, a call on the other): the native tier has to keep the pending operand
+                self.stat("pending-operand-if")
+                vs = self.vars_of(env, "int")
+                bare = V(r.choice(vs)) if vs else self.lit("int")
+                call = A(r.choice(["+", "*", "-"]), bare, self.lit("int"))
+                branches = [bare, call]
+                r.shuffle(branches)
+                test = self.expr("bool", d - 1, env) if r.random() < 0.5 else A("<", bare, self.lit("int"))
+                pend = [self.lit("int") for _ in range(r.randint(1, 3))]
+                return A(r.choice(["+", "max", "min"]), *(pend + [("if", test, branches[0], branches[1])]))
+            if r.random() < 0.3:
+                # a local that is read inside an immediately applied thunk / (let () ..) BEFORE it is assigned
+                self.stat("thunk-read-then-assign")
+                x = self.fresh("tr")
+                env2 = dict(env)
+                env2[x] = "int"
+                read = ("app", ("lam", [], None, [A("+", V(x), self.lit("int"))]), []) if r.random() < 0.5 else \
+                    ("let", [], [A("+", V(x), self.lit("int"))])
+                return ("let", [(x, self.safe_expr("int", 1, env))],
+                        [A("+", read, ("begin", [("set", x, self.safe_expr("int", 1, env2)), V(x)]), V(x))])
             return A(r.choice(["length"]), self.expr("ilist", d - 1, env))
         if k < 0.62:
             self.stat("foldl")
@@ -1003,6 +1025,14 @@ CORPUS = [
     # F42: arity error while native code enters another closure
     [("let", [("h", ("lam", ["p"], None, [("app", ("lam", ["q"], None, [_v("q")]),
         [("let", [("af", ("lam", ["x"], None, [_v("x")]))], [_app(_v("af"))])])]))], [_app(_v("+"), _app(_v("h"), _i(2)), _app(_v("h"), _i(1)))])],
+    # F43: operand pending below an if, one branch a bare local, the other a call (native tier)
+    [("define", "pd", ("lam", ["z"], None, [_app(_v("list"), ("bool", False), ("if", _v("z"), _v("z"), _app(_v("+"), _v("z"), _v("z"))))])),
+     _app(_v("pd"), _i(3)), _app(_v("pd"), _i(4))],
+    # F44: read of a boxed variable inside an applied thunk before its first assignment
+    [("define", "bx", ("lam", [], None, [("let", [("s", _i(3))], [_app(_v("list"), ("app", ("lam", [], None, [_v("s")]), []),
+                                                                    ("set", "s", _i(4)), _v("s"))])])), _app(_v("bx"))],
+    [("define", "by", ("lam", [], None, [("let", [("s", _i(3))], [("set", "s", ("app", ("lam", [], None, [_app(_v("+"), _v("s"), _i(1))]), [])), _v("s")])])),
+     _app(_v("by"))],
     # F29 / F38: operand counts the native tier has no helper for
     [("define", "c9", ("lam", ["f"], None, [_app(_v("f"), *[_i(k) for k in range(1, 10)])])), _app(_v("c9"), _v("+"))],
     [("define", "s5", ("lam", ["a"], None, [_app(_v("-"), _v("a"), _i(1), _i(2), _i(3), _i(4))])), _app(_v("s5"), _i(20)), _app(_v("s5"), _i(21))],
